@@ -229,7 +229,9 @@ class LocalDirectoryContext(Context):
                 def mangle_message(message):
                     return '"' + message.replace('"', '""') + '"'
 
-                fh.write(f'{ctxpath},{date},{severity},{mangle_message(message)}\n')
+                fh.write(
+                    f'{mangle_message(ctxpath)},{date},{severity},{mangle_message(message)}\n'
+                )
 
     def retrieve_log(self, level: Literal['all', 'current', 'lower'] = 'all') -> pd.DataFrame:
         log_path = self._log_path
